@@ -169,6 +169,7 @@ Proof.
   - eexists; splits; reflexivity.
 Qed.
 
+Global Opaque refute_state.
 Local Arguments nth_error : simpl never.
 
 Lemma stranded_step : forall s t c s' evs, stranded s -> estep_opt s t c = Some (s', evs) -> stranded (push evs s').
@@ -215,8 +216,8 @@ Theorem one_result_refuted : exists s, ereachable s /\ returned s = true /\
   forall tr s', exec (fun_step estep) s tr s' -> count_results 0 (e_hist s') = 0%Z.
 Proof.
   exists refute_state. destruct refute_stranded as [Hst [Hret [_ [_ Hin]]]].
-  splits; auto; [apply refute_reachable| |].
-  - destruct Hst as [_ [_ [w [Hw _]]]]. eauto.
+  split; [apply refute_reachable|]. split; [exact Hret|]. split; [exact Hin|]. split.
+  - destruct Hst as [_ [_ [w [Hw _]]]]. exists w. exact Hw.
   - intros tr s' He. pose proof refute_reachable as Hre.
     assert (stranded s' /\ ereachable s') as [[_ [_ [w [Hw [Hp _]]]]] Hr'].
     { clear Hret Hin. induction He as [s|s tr s1 [[t c] o] s2 He IH Hs].
